@@ -49,6 +49,14 @@ type c05Stored struct {
 	lp     lk.LP
 }
 
+type c05Kept struct {
+	raw    []byte
+	n      datamodel.Node
+	expect val.V
+	link   datamodel.Link
+	op     int
+}
+
 func drawLP(t *rapid.T, allowV0 bool, minTrunc int) lk.LP {
 	if allowV0 && rapid.IntRange(0, 7).Draw(t, "v0") == 0 {
 		return lk.LP{Version: 0, Codec: lk.CodecDagPb, MhType: 0x12, MhLength: rapid.SampledFrom([]int{-1, 32}).Draw(t, "v0len")}
@@ -126,6 +134,7 @@ func c05Check(c C05Case, rec *evid.Rec) error {
 	protos := map[string]bool{}
 	storeThenLoad := false
 	reusedProto := false
+	var keptRaw, keptNodes []c05Kept
 	steer := known.Active("C04-integral-float")
 
 	for i, op := range c.Ops {
@@ -273,7 +282,22 @@ func c05Check(c C05Case, rec *evid.Rec) error {
 				if err != nil || !ok {
 					return fmt.Errorf("%s: raw bytes do not hash to the link (%v)", where, err)
 				}
+				keptRaw = append(keptRaw, c05Kept{raw: raw, link: s.link, op: i})
 			}
+			if n != nil {
+				keptNodes = append(keptNodes, c05Kept{n: n, expect: s.expect, link: s.link, op: i})
+			}
+		}
+	}
+	// what earlier loads returned is still right after everything that followed
+	for _, k := range keptRaw {
+		if ok, err := lk.DigestOK(k.link.Binary(), k.raw); err != nil || !ok {
+			return fmt.Errorf("raw bytes returned by op %d for %s no longer hash to the link after later operations (%v)", k.op, k.link, err)
+		}
+	}
+	for _, k := range keptNodes {
+		if got, err := nodes.Read(k.n); err != nil || !val.Equal(got, k.expect, val.Ordered) {
+			return fmt.Errorf("the node loaded by op %d for %s changed after later operations: %s (err %v)", k.op, k.link, val.Diff(got, k.expect), err)
 		}
 	}
 	nt := storeThenLoad && (len(impls) >= 2 || len(protos) >= 2)
